@@ -41,16 +41,21 @@ func SoySite(stack string) string {
 		l := lines[i]
 		if strings.HasPrefix(l, "github.com/robfig/soy") && !strings.Contains(l, "verifsim") {
 			fn := l
-			if k := strings.Index(fn, "("); k > 0 {
+			if k := strings.LastIndex(fn, "("); k > 0 {
 				fn = fn[:k]
 			}
-			fn = strings.TrimPrefix(fn, "github.com/robfig/soy/")
+			if k := strings.LastIndex(fn, "/"); k >= 0 {
+				fn = fn[k+1:]
+			}
 			loc := strings.TrimSpace(lines[i+1])
 			if k := strings.Index(loc, " +0x"); k > 0 {
 				loc = loc[:k]
 			}
-			if k := strings.Index(loc, "github.com/robfig/soy/"); k >= 0 {
-				loc = loc[k+len("github.com/robfig/soy/"):]
+			if k := strings.Index(loc, "github.com/robfig/soy"); k >= 0 {
+				loc = loc[k+len("github.com/robfig/soy"):]
+				if j := strings.Index(loc, "/"); j >= 0 {
+					loc = loc[j+1:] // drops "@v0.0.0"
+				}
 			} else if k := strings.LastIndex(loc, "/soy/"); k >= 0 {
 				loc = loc[k+len("/soy/"):]
 			}
